@@ -373,6 +373,10 @@ package resources
 //@   assigns nothing
 //@   ensures err == nil ==> fresh(res) && fresh(res.Resources) && res.Resources != nil
 //@   ensures err != nil ==> res == nil
+//@   ensures[alltypes] err == nil ==> (forall t Key :: has(res, t) <==> (t in configMap))
+//@   loop 1: invariant res != nil && fresh(res) && fresh(res.Resources) && res.Resources != nil
+//@   loop 1: invariant forall t Key :: has(res, t) <==> seen(t)
+//@   loop 1: invariant forall t Key :: seen(t) ==> (t in configMap)
 
 // ---------------------------------------------------------------- quantity parsing
 
